@@ -18,6 +18,7 @@ var zzParsePrefixes = []string{
 	"message M { option a",
 	"message M { reserved 1 to ",
 	"message M { extensions 1",
+	"message M { extensions 1 [a = 1] ",
 	"import \"a.proto\" ;",
 	"option (a).b = { [c]: 1",
 	"option (a) = { b: 1",
